@@ -9,7 +9,7 @@ import tempfile
 import urllib.error
 from unittest import mock
 
-from common import done, load
+from common import done, load, probe_exception
 
 import urllib3.exceptions
 
@@ -507,9 +507,7 @@ def main(rec):
             with contextlib.redirect_stdout(_io.StringIO()):
                 v = f()
         except Exception as ex:  # noqa
-            import traceback
-
-            v = f"{f.__name__} raised {type(ex).__name__}: {ex} @ {traceback.format_exc().strip().splitlines()[-3][:160]}"
+            v = probe_exception(f, ex)
         if v:
             done(True, v)
     done(False, "probes pass for " + rec.get("obligation", ""))
